@@ -151,6 +151,11 @@ fn main() {
             ancestor::locator(seed, tier, secs(30, 180))
         });
     }
+    if want("pinned") {
+        phase("ancestor.pinned", &mut report, &mut || {
+            ancestor::pinned_across_reorg(seed, tier, secs(30, 180))
+        });
+    }
 
     // ---- evidence ---------------------------------------------------------------------------
     report.note(
@@ -209,6 +214,7 @@ fn main() {
         report.require("ancestor.chains_of_1000_to_3000", 2);
         report.require("locator.get_locator", if q { 50 } else { 500 });
         report.require("locator.active_chain_get_ancestor", if q { 1000 } else { 10_000 });
+        report.require("pinned.reorgs_behind_a_pinned_active_chain", if q { 2 } else { 10 });
     }
 
     drop(scratch);
